@@ -512,7 +512,9 @@ def run(c):
         "1e-9 relative tolerance on objective coefficients (quotients), 1e-6 on optima (solver), widened by "
         "||multipliers||_1 x feasibility tolerance on ill-conditioned instances (counted)",
     ]
-    c.prove()
+    from .translate_c03 import gen_gp_objective
+
+    c.prove(extra=gen_gp_objective(c))  # + objective helpers translated from the source on every run
     t0 = time.time()
     n = c.n(60, 900)
     run_stream(c, n, solver="highs", orders=(1,))
@@ -527,7 +529,9 @@ def run(c):
 
 
 def replay(c, rp):
-    c.prove()
+    from .translate_c03 import gen_gp_objective
+
+    c.prove(extra=gen_gp_objective(c))  # + objective helpers translated from the source on every run
     items = rp.get("failures", []) + rp.get("correspondence_disagreements", [])
     pending, recs = [], []
     for f in items:
